@@ -41,4 +41,96 @@ UNITS = [
     drive('await_ready', 'body awaits an already resolved future between two yields; each of the three synchronous styles', frames=('await',)),
     drive('await_co_await', 'body suspends on a pending future; the consumer coroutine co_awaits next() / the call future; the future is resolved from outside', frames=('await', 'consumer'), unwind=12),
 ]
+
+# ---------------------------------------------------------------------------------------------------------------- contract units
+def esc(x): return x.replace('(', r'\(').replace(')', r'\)').replace('*', r'\*').replace('+', r'\+')
+def variant(arg):
+    G = 'cocls::generator<int, %s>' % arg
+    PTX = '^' + esc(G) + '::promise_type::'
+    NAX = '^' + esc(G) + '::next_awt::'
+    ITX = '^' + esc('cocls::generator_iterator<%s >::' % G)
+    N = {
+        'pt_yield_value_ref': PTX + r'yield_value\(int&\)$', 'pt_yield_value_rref': PTX + r'yield_value\(int&&\)$', 'pt_yield_value_null': PTX + r'yield_value\(decltype\(nullptr\)\)$',
+        'ys_await_suspend': r'^std::__n4861::coroutine_handle<void> ' + esc(G) + r'::promise_type::yield_suspend::await_suspend<', 'ys_await_resume': PTX + r'yield_suspend::await_resume\(\)$',
+        'yn_await_resume': PTX + r'yield_null::await_resume\(\)$', 'pt_final_suspend': PTX + r'final_suspend\(\)$', 'pt_return_void': PTX + r'return_void\(\)$',
+        'pt_unhandled_exception': PTX + r'unhandled_exception\(\)$', 'pt_set_arg': PTX + r'set_arg\(int&\)$', 'pt_next_async': PTX + r'next_async\(cocls::awaiter\*\)$', 'pt_next_sync': PTX + r'next_sync\(\)$',
+        'nf_lambda': r'^auto ' + esc(G) + r'::promise_type::next_future\(\)::\{lambda\(auto:1&&\)#1\}::operator\(\)<cocls::promise<int> >', 'pt_next_future': PTX + r'next_future\(\)$',
+        'pt_unblock_sync': PTX + r'unblock_sync\(\)$', 'pt_unblock_future': PTX + r'unblock_future\(\)$', 'pt_resume_fn_sync': PTX + r'resume_fn_sync\(', 'pt_resume_fn_future': PTX + r'resume_fn_future\(',
+        'pt_done': PTX + r'done\(\) const$', 'pt_value': PTX + r'value\(\)$', 'pt_exception': PTX + r'exception\(\) const$',
+        'na_bool': NAX + r'operator bool\(\) const$', 'na_not': NAX + r'operator!\(\) const$', 'na_await_ready': NAX + r'await_ready\(\) const$',
+        'na_await_suspend': NAX + r'await_suspend\(std::__n4861::coroutine_handle<void>\)$', 'na_await_resume': NAX + r'await_resume\(\) const$', 'na_subscribe': NAX + r'subscribe\(cocls::awaiter\*\)$',
+        'gen_next': '^' + esc(G) + '::next_awt ' + esc(G) + '::next<', 'gen_value': '^' + esc(G) + r'::value\(\)$', 'gen_call': r'^cocls::future<int> ' + esc(G) + r'::operator\(\)<(>|int&>)',
+        'gen_done': '^' + esc(G) + r'::done\(\) const$', 'gen_bool': '^' + esc(G) + r'::operator bool\(\) const$', 'gen_begin': '^drv_gen_begin$', 'gen_end': '^drv_gen_end$',
+        'gen_deleter': '^' + esc(G) + r'::deleter::operator\(\)\(',
+        'it_ctor_fin': ITX + r'generator_iterator\(' + esc(G) + r'&, bool\)$', 'it_ctor': ITX + r'generator_iterator\(' + esc(G) + r'&\)$', 'it_eq': ITX + r'operator==\(', 'it_ne': ITX + r'operator!=\(',
+        'it_inc': ITX + r'operator\+\+\(\)$', 'it_postinc': ITX + r'operator\+\+\(int\)$', 'it_deref': ITX + r'operator\*\(\) const$', 'it_arrow': ITX + r'operator->\(\) const$',
+        # abstract callees (recording stubs in C13/g_spec.h)
+        'chpt_resume': r'^std::__n4861::coroutine_handle<' + esc(G) + r'::promise_type>::resume\(\) const$', 'chpt_destroy': r'^std::__n4861::coroutine_handle<' + esc(G) + r'::promise_type>::destroy\(\) const$',
+        'chv_resume': r'^std::__n4861::coroutine_handle<void>::resume\(\) const$', 'ab_wait': WAIT, 'ab_notify': NOTIFY, 'aw_resume': r'^cocls::awaiter::resume\(\)$',
+        'sp_suspend_now': r'^cocls::suspend_point<void>::suspend_now\(\)$',
+        'pr_call_drop': r'^cocls::suspend_point<bool> cocls::promise<int>::operator\(\)<cocls::DropTag>', 'pr_call_exc': r'^cocls::suspend_point<bool> cocls::promise<int>::operator\(\)<std::__exception_ptr::exception_ptr&>',
+        'pr_call_val': r'^cocls::suspend_point<bool> cocls::promise<int>::operator\(\)<int&>', 'pr_dtor_stub': r'^cocls::promise<int>::~promise\(\)$',
+    }
+    for a in ('pt_unblock_future', 'pt_next_sync', 'pt_next_async', 'pt_next_future', 'na_bool', 'gen_value', 'nf_lambda'): N[a + '_stub'] = N[a]
+    N['RESUME_FN_SYNC'] = N['pt_resume_fn_sync']; N['RESUME_FN_FUTURE'] = N['pt_resume_fn_future']
+    T = {'PT': G + '::promise_type', 'GEN': G, 'DEL': G + '::deleter',
+         'CHPT': 'std::__n4861::coroutine_handle<%s::promise_type>' % G, 'CH': CHT, 'AWT': 'cocls::awaiter', 'SP': 'cocls::suspend_point<void>', 'SPB': 'cocls::suspend_point<bool>',
+         'PROM': 'cocls::promise<int>', 'FUT': 'cocls::future<int>', 'EXCP': 'std::__exception_ptr::exception_ptr', 'ATOMB': 'std::atomic<bool>',
+         'ATOM_AW': 'std::atomic<cocls::awaiter *>', 'ATOM_FU': 'std::atomic<cocls::future<int> *>'}
+    if arg == 'void': T['ITER'] = 'cocls::generator_iterator<%s >' % G
+    return G, N, T
+C_GLOBALS = {'NOOP_FRAME': '_ZNSt7__n486116coroutine_handleINS_22noop_coroutine_promiseEE5_S_frE', 'TI_NO_MORE_VALUES': '_ZTIN5cocls24no_more_values_exceptionE',
+             'TI_VALUE_NOT_READY': '_ZTIN5cocls25value_not_ready_exceptionE'}
+C_LIBS = ['rt_core.c', 'rt_atomic_seq.c', 'model_atomic_ptr_api.c']
+VAR = {'void': variant('void'), 'int': variant('int')}
+def cu(name, alias, arg='void', uses=(), fnptr=(), lam=False, **kw):
+    """one function under contract; `uses` = abstract callees (boundary + recording stub), `fnptr` = functions whose address is compared"""
+    G, N, T = VAR[arg]
+    names = {alias: N[alias]}
+    for f in fnptr: names[f] = N[f]
+    names_opt = dict(AP); names_opt.update({a: N[a] for a in uses})
+    boundary = list(AP.values()) + [N[a] for a in uses] + [N[f] for f in fnptr]
+    d = dict(name=name + ('_arg' if arg == 'int' else ''), driver=DRV, roots=[N[alias]], names=names, names_opt=names_opt, types=T, globals=C_GLOBALS, boundary=boundary, lib=C_LIBS,
+             spec=['C13/drive_atomics.h', 'C13/g_spec.h', 'C13/h_g.c'], harness='h_' + name, enforce=alias, defines=(['GEN_ARG 1'] if arg == 'int' else []),
+             under_contract=[N[alias].lstrip('^').rstrip('$').replace('\\', '')], timeout=300)
+    # class types the debug-info resolver does not find (nested classes of the template): taken from parameter 0 of a member in the unit
+    pt = {}
+    if lam: pt['NF_LAM'] = N['nf_lambda'] + '#0'
+    allal = [alias] + list(uses)
+    na = [a for a in allal if a.startswith('na_')]
+    if na: pt['NAWT'] = N[na[0]] + '#0'
+    elif alias == 'gen_next': pt['NAWT'] = N['gen_next'] + '#0'
+    if alias.startswith('ys_'): pt['YS'] = N[alias] + '#0'
+    if alias.startswith('yn_'): pt['YN'] = N[alias] + '#0'
+    if pt: d['ptypes'] = pt
+    d.update(kw)
+    return d
+CONTRACT_UNITS = [
+    cu('yield_value_ref', 'pt_yield_value_ref'), cu('yield_value_rref', 'pt_yield_value_rref'),
+    cu('yield_value_ref', 'pt_yield_value_ref', 'int'), cu('yield_value_null', 'pt_yield_value_null', 'int'),
+    cu('ys_await_suspend', 'ys_await_suspend', uses=('aw_resume', 'sp_suspend_now')), cu('ys_await_suspend', 'ys_await_suspend', 'int', uses=('aw_resume', 'sp_suspend_now')),
+    cu('ys_await_resume', 'ys_await_resume'), cu('ys_await_resume', 'ys_await_resume', 'int'), cu('yn_await_resume', 'yn_await_resume', 'int'),
+    cu('final_suspend', 'pt_final_suspend'), cu('return_void', 'pt_return_void'), cu('unhandled_exception', 'pt_unhandled_exception'),
+    cu('set_arg', 'pt_set_arg', 'int'),
+    cu('next_async', 'pt_next_async', replay=dict(src='c13_next_async_refused.cpp', mode='refused', flags=['-fno-access-control', '-g'])),
+    cu('next_sync', 'pt_next_sync', uses=('chpt_resume', 'ab_wait'), fnptr=('RESUME_FN_SYNC',)), cu('next_sync', 'pt_next_sync', 'int', uses=('chpt_resume', 'ab_wait'), fnptr=('RESUME_FN_SYNC',)),
+    cu('nf_lambda', 'nf_lambda', uses=('chpt_resume',), fnptr=('RESUME_FN_FUTURE',), lam=True, object_bits=10), cu('nf_lambda', 'nf_lambda', 'int', uses=('chpt_resume',), fnptr=('RESUME_FN_FUTURE',), lam=True, object_bits=10),
+    cu('next_future', 'pt_next_future', uses=('nf_lambda_stub', 'pr_dtor_stub'), lam=True),
+    cu('unblock_sync', 'pt_unblock_sync', uses=('ab_notify',)),
+    cu('unblock_future', 'pt_unblock_future', uses=('pr_call_drop', 'pr_call_exc', 'pr_call_val', 'sp_suspend_now')),
+    cu('resume_fn_sync', 'pt_resume_fn_sync', uses=('ab_notify',)), cu('resume_fn_future', 'pt_resume_fn_future', uses=('pt_unblock_future_stub',)),
+    cu('pt_done', 'pt_done'), cu('pt_value', 'pt_value'), cu('pt_exception', 'pt_exception'),
+    cu('na_bool', 'na_bool', uses=('pt_next_sync_stub',)), cu('na_not', 'na_not', uses=('pt_next_sync_stub',)), cu('na_bool', 'na_bool', 'int', uses=('pt_next_sync_stub',)),
+    cu('na_await_ready', 'na_await_ready'), cu('na_await_suspend', 'na_await_suspend', uses=('pt_next_async_stub',)), cu('na_await_resume', 'na_await_resume'),
+    cu('na_subscribe', 'na_subscribe', uses=('pt_next_async_stub', 'chv_resume')),
+    cu('gen_next', 'gen_next'), cu('gen_next', 'gen_next', 'int'), cu('gen_value', 'gen_value'),
+    cu('gen_call', 'gen_call', uses=('pt_next_future_stub',)), cu('gen_call', 'gen_call', 'int', uses=('pt_next_future_stub',)),
+    cu('gen_done', 'gen_done'), cu('gen_bool', 'gen_bool'),
+    cu('gen_begin', 'gen_begin', uses=('na_bool_stub',), under_contract=['cocls::generator<int, void>::begin()']), cu('gen_end', 'gen_end', under_contract=['cocls::generator<int, void>::end()']), cu('gen_deleter', 'gen_deleter', uses=('chpt_destroy',)),
+    cu('it_ctor_fin', 'it_ctor_fin'), cu('it_ctor', 'it_ctor', uses=('na_bool_stub',)), cu('it_eq', 'it_eq'), cu('it_ne', 'it_ne'),
+    cu('it_inc', 'it_inc', uses=('na_bool_stub',)), cu('it_deref', 'it_deref', uses=('gen_value_stub',)), cu('it_arrow', 'it_arrow', uses=('gen_value_stub',)),
+    cu('it_postinc', 'it_postinc', uses=('gen_value_stub', 'na_bool_stub')),
+]
+UNITS = CONTRACT_UNITS + UNITS
+
 META = dict(level='proof', level_text='TODO', level_note='TODO', technique='TODO', trusted_base=[], assumptions=[], explanation='')
